@@ -104,7 +104,7 @@ def resolve_syntatic_sugar(a: ast.AST) -> ast.AST:
                     f"Too many arguments for dataclass {a.func.value} - {ast.unparse(node)}."
                 )
 
-            arg_values = a.args
+            arg_values = list(a.args)  # the call node may occur at several places: do not edit it
             arg_names = [ast.Constant(value=n) for n in sig_arg_names[: len(arg_values)]]
             arg_lookup = {a.arg: a.value for a in a.keywords}
             for name in sig_arg_names[: len(arg_values)]:
